@@ -335,12 +335,12 @@ def div (a b : Rec R) (w : World R) : Outcome (Rec R × World R) :=
     .ok (pushBinary w h a.index (Division.dx a.number b.number) b.index
       (Division.dy a.number b.number) (Division.function a.number b.number))
 
-/-- `Neg` (record_operations.rs:754, 775): a constant is negated directly, a variable becomes
-    `Record::constant(T::zero()) - self`, which cannot fail `same_list`. -/
+/-- `Neg` (record_operations.rs:754, 782; since fix G-15): the number is negated directly, for a
+    constant and for a variable alike; a variable gets a unary entry with the weight `-T::one()`. -/
 def neg (a : Rec R) (w : World R) : Rec R × World R :=
   match a.history with
   | none => (constant (-a.number), w)
-  | some _ => a.subSwapped 0 w
+  | some h => pushUnary w h a.index (-1) (-a.number)
 
 /-- One round of the loop of `Sum for Record` (record_operations.rs:834-881); the `same_list`
     assertion sits only in the both-have-a-tape arm. -/
@@ -548,6 +548,10 @@ variable [Add R] [Sub R] [Mul R] [Div R] [Zero R] [One R]
 def constant (c : R) : Dual R := ⟨c, 0⟩
 /-- `Trace::variable` (differentiation.rs:184). -/
 def mkVar (x : R) : Dual R := ⟨x, 1⟩
+
+/-- `Trace::derivative(function, x)` (differentiation.rs:200): "a shorthand for
+    `(function(Trace::variable(x))).derivative`". -/
+def derivativeOf (function : Dual R → Dual R) (x : R) : R := (function (mkVar x)).derivative
 
 /-- `Trace::unary` (differentiation.rs:230). -/
 def unary (a : Dual R) (fx dfx : R → R) : Dual R :=
